@@ -44,6 +44,7 @@ type Prog struct {
 	Normalised  string
 	expandedFns map[string]bool      // helpers expanded at one or more call sites
 	collect     map[*types.Func]bool // anchor collection mode
+	liveList    []*FuncInfo
 }
 
 // FuncInfo is one source function (declaration) of a repo package.
@@ -246,12 +247,28 @@ func (p *Prog) FuncOf(obj *types.Func) *FuncInfo {
 func (p *Prog) FuncsInPkg(rel string) []*FuncInfo {
 	pk := p.Pkg(rel)
 	var out []*FuncInfo
-	for _, f := range p.funcList {
+	for _, f := range p.live() {
 		if f.Pkg == pk {
 			out = append(out, f)
 		}
 	}
 	return out
+}
+
+// live lists the functions that are not dead in the normalised view (helpers expanded at every
+// call site are judged where they were expanded, not a second time as free-standing functions).
+func (p *Prog) live() []*FuncInfo {
+	if len(p.expandedFns) == 0 {
+		return p.funcList
+	}
+	if p.liveList == nil {
+		for _, f := range p.funcList {
+			if !p.deadInView(f) {
+				p.liveList = append(p.liveList, f)
+			}
+		}
+	}
+	return p.liveList
 }
 
 func (p *Prog) AllFuncs() []*FuncInfo { return p.funcList }
@@ -436,7 +453,7 @@ func (p *Prog) CallsTo(scope []*FuncInfo, callees ...*types.Func) []CallSite {
 		}
 	}
 	if scope == nil {
-		scope = p.funcList
+		scope = p.live()
 	}
 	var out []CallSite
 	for _, fn := range scope {
@@ -469,7 +486,7 @@ func (p *Prog) StoresTo(scope []*FuncInfo, fields ...*types.Var) []Store {
 		}
 	}
 	if scope == nil {
-		scope = p.funcList
+		scope = p.live()
 	}
 	var out []Store
 	for _, fn := range scope {
